@@ -95,14 +95,19 @@ class ScalarGen:
         if k < 0.80:
             b = self.expr(depth + 1)
             q = r.random()
-            if q < 0.45:
+            if q < 0.40:
                 e = S(r.choice([2, 3, -1, -2]))
-            elif q < 0.6:
+            elif q < 0.52:
                 e = Rational(r.choice([1, 3]), 2)
-            elif q < 0.6 + self.p_varexp:
+            elif q < 0.52 + self.p_varexp:
                 e = self.expr(depth + 2)
+            elif q < 0.62 + self.p_varexp:
+                e = self.coordexpr(1)          # exponent depending on the coordinates only (added after seed C05-2)
             else:
                 e = r.choice(self.env.cst)
+            if r.random() < 0.08:
+                b = self.coef()                # constant base, non constant exponent: c**f
+                e = self.expr(depth + 2)
             return b ** e
         if k < 0.88:
             return self.expr(depth + 1) / self.expr(depth + 1)
@@ -151,7 +156,14 @@ class GenericGen:
                 fs.append(self.coef())
             return sympy.Mul(*fs)
         if k < 0.47:
-            return self.scalar(depth + 1) ** r.choice([2, 3, -1])
+            q = r.random()
+            if q < 0.5:
+                return self.scalar(depth + 1) ** r.choice([2, 3, -1])
+            if q < 0.75:
+                return self.coef() ** self.scalar(depth + 1)      # constant base (added after seed C02-1)
+            if q < 0.9:
+                return self.scalar(depth + 1) ** r.choice(env.coords)
+            return r.choice(env.sf) ** self.scalar(depth + 2)
         if k < 0.60:
             return C.dot(self.vector(depth + 1), self.vector(depth + 1))
         if k < 0.68:
